@@ -84,6 +84,21 @@ def variant(np, pd, base, kind, nature):
     raise ValueError(kind)
 
 
+def inject(np, rng, base, mode):
+    """missing / infinite values at the start, in the middle, at the end and at a random place of float data.
+    NaNs come with both signs and a non-default payload: snapshots are compared bit for bit."""
+    a = np.array(base, dtype=np.float64)
+    if mode == "none" or a.size == 0:
+        return a
+    flat = a.reshape(-1)
+    nans = [np.nan, -np.nan, np.array([0x7ff8000000000123], dtype=np.uint64).view(np.float64)[0]]
+    infs = [np.inf, -np.inf]
+    pool = {"nan": nans, "inf": infs, "naninf": nans + infs}[mode]
+    for pos in {0, flat.size // 2, flat.size - 1, rng.randrange(flat.size)}:
+        flat[pos] = rng.choice(pool)
+    return a
+
+
 # ----------------------------------------------------------------------------------------------
 # snapshots and deep equality
 def fbits(x):
@@ -144,7 +159,7 @@ class Snap:
         if isinstance(x, H.grid.Grid):
             meta = tuple(repr(getattr(x, k, None)) for k in
                          ("name", "ncols", "nrows", "cellsize", "xllcorner", "yllcorner", "nodata", "comment"))
-            return ("grid", meta, str(x.data.dtype), tuple(x.data.shape), self.cells(x.data))
+            return ("grid", meta, str(x.data.dtype), tuple(x.data.shape), self.cells(x.data), x.data.tobytes())
         if isinstance(x, H.grid.Catchment):
             return ("catch", repr(x.name), self.snap(x._flowdir, depth + 1),
                     [self.snap(getattr(x, k, None), depth + 1) for k in
@@ -210,6 +225,8 @@ class Snap:
                 hard.append(f"{path}: grid shape changed")
             elif not cells_equal(a[4], b[4]):
                 hard.append(f"{path}: grid cell values changed")
+            elif a[2] == b[2] and a[5] != b[5]:
+                hard.append(f"{path}: grid cell values changed (bit patterns of missing values)")
             if a[2] != b[2]:
                 soft.append(f"{path}: grid retyped {a[2]} -> {b[2]} (cell values "
                             f"{'kept' if cells_equal(a[4], b[4]) else 'CHANGED'})")
@@ -436,7 +453,8 @@ def load(ctx):
     matplotlib.use("Agg")
     import matplotlib.pyplot as plt
     H = Handles()
-    H.tiny = False
+    H.tiny = H.big = H.varied = False
+    H.bigoff = 0
     H.np, H.pd, H.plt = np, pd, plt
     from hydrodiy.stat import metrics, sutils, armodels, transform
     from hydrodiy.data import dutils, qualitycontrol, signatures
@@ -496,14 +514,15 @@ def floats(rng, n, lo=0.1, hi=10.0):
 
 # ----------------------------------------------------------------------------------------------
 # correspondence: wrappers that hand buffers to kernels
-def wrapper_cases(H, rng, kind):
+def wrapper_cases(H, rng, kind, holes="none"):
     """-> list of (model name, callers [objects in the model's caller-index order], thunk).
     `kind` is applied to the array-like arguments; receivers / grids are built fresh for every case."""
     np, pd, G = H.np, H.pd, H.grid
     out = []
 
     def v(base, nature="float"):
-        obj, keep = variant(np, pd, np.array(base), kind, nature)
+        base = inject(np, rng, base, holes) if nature == "float" else np.array(base)
+        obj, keep = variant(np, pd, base, kind, nature)
         return obj
 
     n = rng.randint(6, 14)
@@ -633,11 +652,12 @@ ALLOWED = {"delineate_boundary": [1], "delineate_boundary_nomask": [1], "points_
 
 def correspondence(ctx, H, rec):
     rng = ctx.rng
-    rows = []
+    rows, case_holes = [], []
     canonical_rejected = {}
     for rep in range(ctx.scale(6, 60)):
+        holes = ("none", "nan", "naninf")[rep % 3]
         for kind in KINDS:
-            for name, callers, thunk in wrapper_cases(H, rng, kind):
+            for name, callers, thunk in wrapper_cases(H, rng, kind, holes):
                 toks, bufs = [], []
                 for c in callers:
                     t, b = kind_token(H, c)
@@ -655,14 +675,15 @@ def correspondence(ctx, H, rec):
                 events = list(rec.events)
                 changed = [i for i, (b, s) in enumerate(zip(bufs, snaps)) if b is not None and b.tobytes() != s]
                 rows.append((name, kind, toks, events, err, changed))
-                if kind == "c64" and err is not None:
+                if kind == "c64" and holes == "none" and err is not None:
                     canonical_rejected[name] = err
+                case_holes.append(holes)
     replies = ctx.lean.ask([f"run {name} [{','.join(toks)}]" for name, _k, toks, _e, _r, _c in rows])
     safes = dict(zip(sorted({r[0] for r in rows}),
                      ctx.lean.ask([f"safe {n} {C.ilist(ALLOWED.get(n, []))}" for n in sorted({r[0] for r in rows})])))
     never_changed, witness = {}, {}
-    for (name, kind, toks, events, err, changed), rep in zip(rows, replies):
-        case = {"wrapper": name, "kind": kind, "kinds": toks[:4], "error": err}
+    for (name, kind, toks, events, err, changed), rep, hol in zip(rows, replies, case_holes):
+        case = {"wrapper": name, "kind": kind, "kinds": toks[:4], "error": err, "holes": hol}
         if not rep.startswith("ok "):
             ctx.disagree(f"driver: {rep}", case)
             continue
@@ -738,12 +759,23 @@ def build_entries(H):
     def add(name, fn, gen, canonical="c64", optional=False):
         E.append(Entry(name, fn, gen, canonical, optional))
 
+    def N(n):
+        """series length: beyond the internal thresholds of the library in the `big` cases (same offset for every
+        argument of the case, so that paired series keep matching lengths)"""
+        return n + H.bigoff if H.big else n
+
+    def opt(usual, other):
+        """an option of the function under test: `usual` (what the small cases need) or, in the `big` / `varied`
+        cases, `other` (the library default, or a value that switches an optional path on)"""
+        return other if (H.big or H.varied) else usual
+
     def vec(rng, n=None, lo=0.1, hi=10.0):
         # H.tiny: lengths 1..3 in some of the random-mixture cases (most functions reject them; none may touch them)
-        n = n or (rng.randint(1, 3) if H.tiny else rng.randint(8, 20))
+        n = N(n or (rng.randint(1, 3) if H.tiny else rng.randint(8, 20)))
         return np.array(floats(rng, n, lo, hi))
 
     def mat(rng, n, p, lo=0.1, hi=10.0):
+        n = N(n)
         return np.array(floats(rng, n * p, lo, hi)).reshape(n, p)
 
     def holes(rng, a, always=False):
@@ -800,18 +832,19 @@ def build_entries(H):
             add(f"metrics.corr/{st}/{ty}",
                 lambda obs, ens, trans, st=st, ty=ty: M.corr(obs, ens, trans, stat=st, type=ty),
                 lambda rng: with_trans(rng, obs_ens(rng)))
-    add("metrics.absolute_peak_error", lambda obs, sim: M.absolute_peak_error(obs, sim, winerase=6, winpeakbefore=2,
-                                                                              winpeakafter=3, neventmax=3),
+    add("metrics.absolute_peak_error",
+        lambda obs, sim: M.absolute_peak_error(obs, sim, **({} if H.big else dict(winerase=6, winpeakbefore=2,
+                                                                                 winpeakafter=3, neventmax=3))),
         lambda rng: [Arg("obs", holes(rng, vec(rng, 40, -1, 10))), Arg("sim", holes(rng, vec(rng, 40, -1, 10)))])
     for mod in (False, True):
         add(f"metrics.relative_percentile_error/modified={mod}",
             lambda obs, sim, percentile_range, mod=mod: M.relative_percentile_error(obs, sim, percentile_range,
-                                                                                    modified=mod, neval=10),
+                                                                                    modified=mod, neval=opt(10, 50)),
             lambda rng: [Arg("obs", vec(rng, 30)), Arg("sim", vec(rng, 30)),
                          Arg("percentile_range", [10., 90.], "fixed")])
     add("metrics.confusion_matrix", lambda obs, sim: M.confusion_matrix(obs, sim),
-        lambda rng: [Arg("obs", np.array([rng.randrange(3) for _ in range(15)]), "int"),
-                     Arg("sim", np.array([rng.randrange(3) for _ in range(15)]), "int")])
+        lambda rng: [Arg("obs", np.array([rng.randrange(3) for _ in range(N(15))]), "int"),
+                     Arg("sim", np.array([rng.randrange(3) for _ in range(N(15))]), "int")])
     add("metrics.confusion_matrix/ncat", lambda obs, sim: M.confusion_matrix(obs, sim, ncat=4),
         lambda rng: [Arg("obs", np.array([rng.randrange(3) for _ in range(15)]), "int"),
                      Arg("sim", np.array([rng.randrange(3) for _ in range(15)]), "int")])
@@ -876,7 +909,7 @@ def build_entries(H):
 
     # ---------------- dutils
     add("dutils.sequence_true", lambda values: D.sequence_true(values),
-        lambda rng: [Arg("values", np.array([float(rng.random() < 0.5) for _ in range(20)]))])
+        lambda rng: [Arg("values", np.array([float(rng.random() < 0.5) for _ in range(N(20))]))])
     add("dutils.cast", lambda x, y: D.cast(x, y), lambda rng: [Arg("x", vec(rng, 5)), Arg("y", vec(rng, 5))])
     add("dutils.dayofyear", lambda days: D.dayofyear(days),
         lambda rng: [Arg("days", pd.date_range("2001-02-20", periods=20), "fixed")])
@@ -886,7 +919,7 @@ def build_entries(H):
 
     def agg_args(rng):
         n = rng.randint(8, 20)
-        return [Arg("aggindex", np.repeat(np.arange(3, n), 3)[:n], "int"), Arg("inputs", vec(rng, n))]
+        return [Arg("aggindex", np.repeat(np.arange(3, N(n)), 3)[:N(n)], "int"), Arg("inputs", vec(rng, n))]
     for op in range(4):
         add(f"dutils.aggregate/op={op}", lambda aggindex, inputs, op=op: D.aggregate(aggindex, inputs, operator=op), agg_args)
     add("dutils.flathomogen", lambda aggindex, inputs: D.flathomogen(aggindex, inputs), agg_args)
@@ -916,19 +949,28 @@ def build_entries(H):
 
     # ---------------- qualitycontrol / signatures
     add("qualitycontrol.ismisscens", lambda x: Q.ismisscens(x, censor=1.),
-        lambda rng: [Arg("x", np.where(np.arange(15) % 4 == 0, np.nan, vec(rng, 15, 0, 3)))])
+        lambda rng: [Arg("x", np.where(np.arange(N(15)) % 4 == 0, np.nan, vec(rng, 15, 0, 3)))])
     add("qualitycontrol.ismisscens/2d", lambda x: Q.ismisscens(x, censor=1.), lambda rng: [Arg("x", mat(rng, 8, 2, 0, 3))])
     add("qualitycontrol.islinear", lambda data: Q.islinear(data),
         lambda rng: [Arg("data", np.concatenate([np.arange(6.), vec(rng, 6), np.ones(5)]))])
     add("signatures.eckhardt", lambda flow: SG.eckhardt(flow), lambda rng: [Arg("flow", vec(rng, 30))])
     add("signatures.fdcslope", lambda x: SG.fdcslope(x, q1=50, q2=90), lambda rng: [Arg("x", holes(rng, vec(rng, 40)))])
     add("signatures.goue", lambda aggindex, values: SG.goue(aggindex, values),
-        lambda rng: [Arg("aggindex", np.repeat(np.arange(3, 30), 4)[:40], "int"), Arg("values", vec(rng, 40))])
+        lambda rng: [Arg("aggindex", np.repeat(np.arange(3, N(40)), 4)[:N(40)], "int"), Arg("values", vec(rng, 40))])
 
     # ---------------- Grid methods
+    def gshape():
+        """(nrows, ncols): more cells than the nprint=100 default of the grid kernels in the `big` cases"""
+        return (23, 24) if H.big else (6, 7)
+
     def fgrid(rng, dtype=None):
-        g = G.Grid("g", 7, 6, cellsize=1., xllcorner=0., yllcorner=0., dtype=dtype or np.float64, nodata=-9)
-        g.data = np.round(np.array(floats(rng, 42, 0, 50))).reshape(6, 7)
+        nr, nc = gshape()
+        g = G.Grid("g", nc, nr, cellsize=1., xllcorner=0., yllcorner=0., dtype=dtype or np.float64, nodata=-9)
+        vals = np.round(np.array(floats(rng, nr * nc, 0, 50))).reshape(nr, nc)
+        if H.varied and np.dtype(g.dtype).kind == "f":
+            # missing cells in the first row, in the middle, in the last row and somewhere else
+            vals = inject(np, rng, vals, "nan")
+        g.data = vals
         return g
     gtypes = [np.float64, np.float32, np.int64, np.int32]
 
@@ -993,7 +1035,7 @@ def build_entries(H):
 
     # ---------------- Catchment methods
     def catch(rng, boundary=True):
-        return make_catchment(H, rng, boundary=boundary, flowdir=make_flowdir(H, rng, dtype=np.int64))
+        return make_catchment(H, rng, boundary=boundary, flowdir=make_flowdir(H, rng, *gshape(), dtype=np.int64))
     add("Catchment.upstream", lambda self, idxdown: self.upstream(idxdown),
         lambda rng: [Arg("self", catch(rng), "fixed"), Arg("idxdown", gcells(rng), "int")])
     add("Catchment.downstream", lambda self, idxup: self.downstream(idxup),
@@ -1026,27 +1068,28 @@ def build_entries(H):
 
     # ---------------- grid-level functions (grid arguments of every dtype: cell values must be kept)
     def fdir(rng):
-        return make_flowdir(H, rng, dtype=rng.choice([np.int64, np.int32, np.float64]))
-    add("grid.delineate_river", lambda flowdir: G.delineate_river(flowdir, 0, nval=60),
+        return make_flowdir(H, rng, *gshape(), dtype=rng.choice([np.int64, np.int32, np.float64]))
+    add("grid.delineate_river", lambda flowdir: G.delineate_river(flowdir, 0, **opt(dict(nval=60), {})),
         lambda rng: [Arg("flowdir", fdir(rng), "fixed")], "fixed")
-    add("grid.accumulate", lambda flowdir, to_accumulate: G.accumulate(flowdir, to_accumulate, nprint=10 ** 9),
+    add("grid.accumulate", lambda flowdir, to_accumulate: G.accumulate(flowdir, to_accumulate, **opt(dict(nprint=10 ** 9), {})),
         lambda rng: [Arg("flowdir", fdir(rng), "fixed"), Arg("to_accumulate", fgrid(rng, rng.choice(gtypes)), "fixed")], "fixed")
-    add("grid.accumulate/default", lambda flowdir: G.accumulate(flowdir, nprint=10 ** 9),
+    add("grid.accumulate/default", lambda flowdir: G.accumulate(flowdir, **opt(dict(nprint=10 ** 9), {})),
         lambda rng: [Arg("flowdir", fdir(rng), "fixed")], "fixed")
-    add("grid.slope", lambda flowdir, altitude: G.slope(flowdir, altitude, nprint=10 ** 9),
+    add("grid.slope", lambda flowdir, altitude: G.slope(flowdir, altitude, **opt(dict(nprint=10 ** 9), {})),
         lambda rng: [Arg("flowdir", fdir(rng), "fixed"), Arg("altitude", fgrid(rng, rng.choice(gtypes)), "fixed")], "fixed")
     add("grid.voronoi", lambda catchment, xypoints: G.voronoi(catchment, xypoints),
         lambda rng: [Arg("catchment", catch(rng), "fixed"), Arg("xypoints", gxy(rng))])
-    add("grid.gsmooth", lambda grid: G.gsmooth(grid, coastwin=5, sigma=0.5),
+    add("grid.gsmooth", lambda grid: G.gsmooth(grid, coastwin=5, sigma=0.5, minval=opt(-np.inf, 20.)),
         lambda rng: [Arg("grid", fgrid(rng, rng.choice([np.float64, np.float32])), "fixed")], "fixed")
     add("grid.gsmooth/integer_grid", lambda grid: G.gsmooth(grid, coastwin=5, sigma=0.5, minval=0),
         lambda rng: [Arg("grid", fgrid(rng, rng.choice([np.int64, np.int32])), "fixed")], "fixed", optional=True)
 
     def smask(rng):
-        m = G.Grid("m", 7, 6, cellsize=1., xllcorner=0., yllcorner=0., dtype=np.int32, nodata=0)
-        m.data = (np.array(floats(rng, 42, 0, 1)) > 0.2).astype(int).reshape(6, 7)
+        nr, nc = gshape()
+        m = G.Grid("m", nc, nr, cellsize=1., xllcorner=0., yllcorner=0., dtype=np.int32, nodata=0)
+        m.data = (np.array(floats(rng, nr * nc, 0, 1)) > 0.2).astype(int).reshape(nr, nc)
         return m
-    add("grid.gsmooth/mask", lambda grid, mask: G.gsmooth(grid, mask, coastwin=5, sigma=0.5),
+    add("grid.gsmooth/mask", lambda grid, mask: G.gsmooth(grid, mask, coastwin=5, sigma=0.5, minval=opt(-np.inf, 20.)),
         lambda rng: [Arg("grid", fgrid(rng, rng.choice([np.float64, np.float32])), "fixed"),
                      Arg("mask", smask(rng), "fixed")], "fixed")
 
@@ -1075,13 +1118,13 @@ def build_entries(H):
     def vp(data):
         fig, ax = plt.subplots()
         try:
-            vl = H.violinplot.Violin(data, nresample_kde=50)
+            vl = H.violinplot.Violin(data)          # library defaults: npoints_kde, nresample_kde=500
             vl.draw(ax=ax)
             return (vl.stats, vl.kde_x, vl.kde_y)
         finally:
             plt.close(fig)
     add("violinplot.Violin", lambda data: vp(data), lambda rng: [Arg("data", holes(rng, mat(rng, 25, 2)))])
-    add("putils.kde", lambda xy: H.putils.kde(xy, ngrid=8), lambda rng: [Arg("xy", mat(rng, 25, 2, -2, 2))])
+    add("putils.kde", lambda xy: H.putils.kde(xy, ngrid=opt(8, 50)), lambda rng: [Arg("xy", mat(rng, 25, 2, -2, 2))])
     add("putils.kde/ties", lambda xy: H.putils.kde(xy, ngrid=8),
         lambda rng: [Arg("xy", np.round(mat(rng, 25, 2, -2, 2)))])
     add("putils.kde/eps=0", lambda xy: H.putils.kde(xy, ngrid=8, eps=0.), lambda rng: [Arg("xy", mat(rng, 25, 2, -2, 2))])
@@ -1136,15 +1179,24 @@ def oracle(ctx, H, rec):
         probe = ent.gen(rng)
         data_args = [a.name for a in probe if a.nature in ("float", "int")]
         if not data_args:
-            plans = [("fixed", {})] * ctx.scale(4, 40)
+            plans = [("fixed", {})] * ctx.scale(4, 40) + [("fixed/big", {})] * ctx.scale(1, 4)
         else:
             for k in KINDS:
                 plans.append((k, {n: k for n in data_args}))
+            # the canonical kind again with missing / infinite values at the start, middle and end, and with sizes
+            # beyond the internal thresholds of the library (500-point resampling, 300-step windows, nprint=100 ...)
+            for lab in ("c64/nan", "c64/inf", "c64/naninf", "c64/big", "c64/big/nan"):
+                plans.append((lab, {n: "c64" for n in data_args}))
             for _ in range(ctx.scale(6, 100)):
                 asg = {n: rng.choice(KINDS) for n in data_args}
-                plans.append(("mixed", asg))
-        for label, asg in plans:
-            H.tiny = label == "mixed" and rng.random() < 0.15
+                plans.append((rng.choice(["mixed", "mixed", "mixed/nan", "mixed/naninf"]), asg))
+        for iplan, (label, asg) in enumerate(plans):
+            H.tiny = label.startswith("mixed") and rng.random() < 0.15
+            H.big = "/big" in label
+            H.bigoff = rng.randint(501, 560)
+            # grids with missing cells / options away from their defaults: never in the first (canonical) case
+            H.varied = iplan > 0 and rng.random() < 0.6
+            hmode = label.rsplit("/", 1)[1] if label.rsplit("/", 1)[-1] in ("nan", "inf", "naninf") else "none"
             args = ent.gen(rng)
             kw, keep, kinds_used, unsnapped = {}, [], {}, set()
             for a in args:
@@ -1158,10 +1210,13 @@ def oracle(ctx, H, rec):
                     k = a.kinds[0]
                 if ent.canonical == "pandas" and k == "c64":
                     k = "pandas"
-                obj, ka = variant(np, pd, a.value, k, a.nature)
+                base = inject(np, rng, a.value, hmode) if a.nature == "float" else a.value
+                obj, ka = variant(np, pd, base, k, a.nature)
                 kw[a.name] = obj
                 keep.append(ka)
                 kinds_used[a.name] = k
+            if hmode != "none":
+                kinds_used["holes"] = hmode
             seed = rng.randrange(2 ** 31)
             before = {n: sn.snap(o) for n, o in kw.items() if n not in unsnapped}
             results, errs = [], []
@@ -1215,7 +1270,8 @@ def oracle(ctx, H, rec):
                     elif a.nature == "fixed":
                         kw3[a.name] = a.value
                     else:
-                        kw3[a.name], ka = variant(np, pd, a.value, kinds_used.get(a.name, "c64"), a.nature)
+                        kw3[a.name], ka = variant(np, pd, inject(np, rng, a.value, hmode) if a.nature == "float" else a.value,
+                                                  kinds_used.get(a.name, "c64"), a.nature)
                         keep.append(ka)
                 shared_in = [v for n in kw3 if kw3[n] is kw.get(n) for v in leaves(H, kw[n])]
                 np.random.seed(seed + 1)
@@ -1240,7 +1296,8 @@ def oracle(ctx, H, rec):
             ok = errs[0] is None
             if not ok:
                 stats["rejected"] += 1
-            if label in ("c64", "fixed") or (ent.canonical == "pandas" and label == "pandas"):
+            if (label == "c64" or (label == "fixed" and not H.varied)
+                    or (ent.canonical == "pandas" and label == "pandas")):
                 accepted_canonical[ent.name] = accepted_canonical.get(ent.name, False) or ok
                 if not ok:
                     accepted_canonical.setdefault(ent.name + "!err", errs[0])
